@@ -125,6 +125,7 @@ def port_reads(chunks: list[bytes], use_real_protocol: bool = False):
     logcap.CAP.reset()
     try:
         T.is_hgi80 = lambda name: False  # noqa: E731
+        T._global_sync_cycles.clear()  # process-wide state of the sync-cycle tracker
         if use_real_protocol:
             from ramses_tx.protocol import ReadProtocol
 
